@@ -461,7 +461,7 @@ func ruleRetransmit(c *RC) *RuleResult {
 // ---- C02 / C01: acceptance ----
 
 func init() {
-	propertyRules["C02"] = []ruleFn{ruleAcceptSite, ruleAccept, rulePreAccept, ruleSlot, ruleVerifyOnStore, ruleRevalidate, ruleTip, ruleProposalFields, ruleViewResetCover}
+	propertyRules["C02"] = []ruleFn{ruleAcceptSite, ruleAccept, rulePreAccept, ruleSlot, ruleVerifyOnStore, ruleRevalidate, ruleHeaderAfterPreBlock, ruleTip, ruleProposalFields, ruleViewResetCover}
 	propertyExplain["C02"] = "ProcessBlock/ProcessPreBlock have one call site each, proven to be behind an M-of-N quorum counted over current-view entries of the per-validator (pre)commit table with all transactions present; every non-nil store into a per-validator payload table is keyed by the payload's own validator index (distinct validators); block fields PrevHash/BlockIndex come from the ledger callbacks at the height reset and Timestamp/Nonce/TransactionHashes only from the accepted proposal or the proposal builder. Cryptographic soundness of Verify callbacks is not decided."
 }
 
